@@ -12,7 +12,7 @@ CFG = {'assumptions': ["every position, size and n stays below 2^31 - 64 (Go's i
         'bitmap.SafeGet': 'bitmap.SafeGet, bitmap.SafeGet1',
         'bitmap.OfMany': 'bitmap.OfMany',
         'bitmap.Builder': 'bitmap.NewBuilder + Builder.Extend / Builder.Set history, Words and Offset after every call'},
- 'rule': 'cases = Of: every subset of {0,1,62,63,64,65,127,128} x 14 choices of n (absent, negative, smaller, last+1, '
+ 'rule': 'cases = Of: every subset of {0,1,62,63,64,65,127,128} x 18 choices of n (absent, negative down to -2^31, smaller, last+1, '
          'larger, word-aligned) + random ascending lists in 5 styles (dense, small gaps, word boundaries, gaps > 3 '
          'words, duplicates); ToArray / Of(ToArray) on 0..15-word bitmaps with trailing zero words; Get/Get1 and '
          'SafeGet/SafeGet1 inside, SafeGet* outside (negative, just past the end, far, int32 extremes); OfMany on 0..6 '
